@@ -29,6 +29,7 @@ type optSet struct {
 	BloomBits   uint
 	SizeLimit   int
 	SkipBounds  [][]string
+	SkipStats   [][]string
 	cleanup     []func()
 	WriteBuffer int
 }
@@ -168,6 +169,7 @@ func genOptions(r *gen.Rand, lim optLimits) *optSet {
 		}
 		if r.P(10) {
 			p := gen.Pick(r, lim.Leaves)
+			o.SkipStats = append(o.SkipStats, p)
 			add(parquet.SkipPageStatistics(p...), "skipstats=%v", p)
 		}
 	}
